@@ -22,7 +22,7 @@ addresses 0/all-ones/single bits/RFC1918-like patterns, + 16 (quick) / 96 (thoro
 on integers (covers), total-order laws (antisymmetry, transitivity, Equal iff ==), hash agreement, 'more specific sorts \
 before covering'; non-trivial = pair where one covers the other or they share a range boundary (distinct by \
 construction, counted). origins: random triples of (prefix, max-len, asn) from D; oracle = key (prefix, resolved \
-max-len, asn). asnset: random ASN vectors with forced duplicates; oracle = BTreeSet; non-trivial = a duplicate present.";
+max-len, asn). asnset: random ASN vectors with forced duplicates; oracle = BTreeSet; non-trivial = a duplicate present. construct also: Deserialize is a strict constructor (host bits set or length overflow => error; from a string, a JSON value, a reader), IpBlock::from(prefix) covers exactly the prefix's address range.";
 
 //------------ model ----------------------------------------------------------
 
